@@ -275,6 +275,7 @@ type AppCall struct {
 	S     int
 	PossDup bool
 	At    time.Time
+	Task  string
 }
 
 type App struct {
@@ -291,7 +292,7 @@ type App struct {
 }
 
 func (a *App) rec(kind string, m *quickfix.Message) AppCall {
-	c := AppCall{Kind: kind, At: time.Now()}
+	c := AppCall{Kind: kind, At: time.Now(), Task: simsync.TaskName()}
 	if m != nil {
 		c.Type, _ = m.Header.GetString(quickfix.Tag(35))
 		if n, err := m.Header.GetInt(quickfix.Tag(34)); err == nil {
